@@ -76,8 +76,16 @@ def run(ctx):
     for mask in sorted(masks):
         d = D.get(mask)
         if d is None:
-            ctx.ob("mask-names/%s/has-table" % mask, False)
-            ctx.violation("disassemble/mask/%s/no-name-table" % mask, "no Disassemble impl for spirv::%s" % mask, None)
+            consts0 = dict(masks[mask]["consts"])
+            want0 = dict((consts0.get(n), nm) for n, nm in snap.get(mask, {"bits": []})["bits"])
+            b0 = sorted(b for b in want0 if b)[0] if [b for b in want0 if b] else None
+            real = rp.ask("disas_operand %s %d" % (mask, b0)) if b0 is not None else {}
+            if b0 is not None and real.get("text") != want0[b0]:
+                ctx.ob("mask-names/%s/has-table" % mask, False)
+                ctx.violation("disassemble/mask/%s/no-name-table" % mask, "spirv::%s has no name table: bit %#x is rendered as %r, the specification name is %s" % (
+                    mask, b0, real.get("text"), want0[b0]), {"cmd": "disas_operand %s %d" % (mask, b0), "real": real})
+            else:
+                ctx.ob("mask-names/%s/has-table" % mask, None, "no `impl Disassemble for spirv::%s` found by the token reader, but the compiled crate renders %r" % (mask, real.get("text")))
             continue
         consts = dict(masks[mask]["consts"])
         single = {n: b for n, b in consts.items() if b and bin(b).count("1") == 1}
@@ -555,7 +563,18 @@ def module_walk(ctx, q, S):
                "%d line sources" % len(parts))
         if stq == "sat":
             nonempty = sorted(str(d)[2:] for d in m.decls() if str(d).startswith("s:") and m.eval(z3.Length(d()), model_completion=True).as_long() > 0)
-            ctx.violation("disassemble/walk-order", "Module::disassemble does not render the instructions in assembly order (differs when %s are non-empty)" % nonempty, None)
+            import c20
+            data = c20.corpus("quick")[0]
+            rp_ = Replay()
+            real = rp_.ask("load_disassemble %s" % data.hex())
+            rp_.close()
+            names_ = [re.sub(r"^.*?(Op\w+).*$", r"\1", l) for l in real.get("text", "").split("\n") if "Op" in l]
+            want_ = ["OpCapability", "OpMemoryModel", "OpTypeVoid", "OpTypeInt", "OpConstant", "OpTypeFunction", "OpFunction", "OpLabel", "OpReturn", "OpFunctionEnd"]
+            if real.get("loaded") and names_ != want_:
+                ctx.violation("disassemble/walk-order", "Module::disassemble does not render the instructions in assembly order (differs when %s are non-empty): %s" % (nonempty, names_),
+                              {"cmd": "load_disassemble %s" % data.hex(), "real": real})
+            else:
+                ctx.inconclusive.append(("walk/one-line-per-instruction-in-assembly-order", "model-only (differs when %s are non-empty); the compiled crate renders %s" % (nonempty, names_)))
     except mir.Unsupported as ex:
         ctx.ob("walk/encodable", None, str(ex)[:300])
     ctx.extra["walk_sample"] = kinds[:12]
